@@ -326,3 +326,68 @@ def c15_reap(ctx):
         else:
             out.append(bad('ORD-C15-reap', key, 'removal not under the threads lock, or join under it', fn=rf.name))
     return out
+
+
+def drop_base(ctx):
+    """The destructors of the protocol's own types are the reviewed ones.  Handles of these types are embedded and cloned all over the
+    crate (every SchedulerFuture carries a `Scheduler`, every waker an `Arc<JobQueue>`, every pipe poll a `PipeContext`), so a destructor
+    added to one of them runs at every one of those places - on pool threads, under locks, inside jobs, during unwinding.  A new destructor
+    that only touches its own data is harmless; one that takes the scheduler's locks, blocks, joins, or calls back into the protocol is
+    reported with the call path that makes it so."""
+    import os
+    from .rules_locks import cg
+    from .callgraph import BLOCKING
+    from .locks import lock_sites
+    from .flatten import known_fns
+    from .newtypes import known_adts
+    F = ctx.F
+    out = []
+    R = 'DROP-base'
+    p = os.path.join(os.path.dirname(os.path.abspath(__file__)), 'known_drops.txt')
+    if not os.path.exists(p):
+        return [undecided(R, 'baseline', 'dsa/known_drops.txt is missing')]
+    base = set(l.strip() for l in open(p) if l.strip())
+    kadts = known_adts() or set()
+    kfns = known_fns() or set()
+    g = cg(ctx)
+    n = 0
+    for i in F.impls:
+        if not (i.get('trait') or '').endswith('ops::drop::Drop'):
+            continue
+        head = i.get('self_head')
+        n += 1
+        key = '%s|destructor' % str(head).split('::')[-1]
+        if head in base:
+            out.append(ok(R, key, 'reviewed destructor'))
+            continue
+        if head not in kadts:
+            continue        # a new type with its own destructor: the rules that meet the type speak about it
+        dfn = F.fn('<%s as core::ops::drop::Drop>::drop' % head) or F.fn('%s::drop' % head)
+        if not dfn:
+            out.append(undecided(R, key, 'a destructor was added to %s but its body was not found' % head))
+            continue
+        why = None
+        for fname in sorted(g.reachable(dfn.name)):
+            f2 = F.fn(fname)
+            if not f2:
+                continue
+            if fname != dfn.name and fname in kfns and not f2.is_closure:
+                why = 'it calls %s' % short(fname)
+                break
+            if any(True for _ in lock_sites(f2)):
+                why = 'it takes a lock (in %s)' % short(fname)
+                break
+            for bb, t in f2.calls():
+                if (t['func'].get('fn') or '') in BLOCKING and not f2.blocks[bb]['cleanup']:
+                    why = 'it can block (%s in %s)' % (BLOCKING[t['func']['fn']], short(fname))
+                    break
+            if why:
+                break
+        if why:
+            out.append(bad(R, key, '%s gained a destructor and %s: values of this type are dropped wherever a handle goes out of scope - inside jobs, on pool threads, under the caller\'s locks, '
+                           'while unwinding - so the scheduler\'s protocol now also runs at all of those points (a pool thread joining itself, a detach() that blocks, a lock taken out of order)' % (str(head).split('::')[-1], why), fn=dfn.name))
+        else:
+            out.append(ok(R, key, 'a new destructor that touches only its own data'))
+    if n < len(base):
+        out.append(undecided(R, 'floor', 'only %d destructors found, the reviewed set has %d' % (n, len(base))))
+    return out
